@@ -5,9 +5,9 @@
 import json, os, subprocess, sys, shutil, xml.etree.ElementTree as ET
 sid = sys.argv[1]
 d = f'/verif/seeded/{sid}'
-wt = f'/tmp/wt/confirm-{sid}'
+wt = f'/tmp/wt/{sid.split("-")[0].lower()}'   # same path the change was written in (some demos assert it)
 subprocess.run(['git', '-C', '/repo', 'worktree', 'remove', '--force', wt], capture_output=True)
-subprocess.run(['/verif/tools/mk_worktree.sh', f'confirm-{sid}'], check=True, capture_output=True)
+subprocess.run(['/verif/tools/mk_worktree.sh', sid.split('-')[0].lower()], check=True, capture_output=True)
 env = dict(os.environ, PYTHONPATH=f'{wt}/src', MPLBACKEND='Agg', PYTHONDONTWRITEBYTECODE='1')
 out = {'id': sid, 'repo_head': subprocess.run(['git', '-C', '/repo', 'rev-parse', 'HEAD'], capture_output=True, text=True).stdout.strip()}
 try:
